@@ -69,6 +69,19 @@ impl<'a> Evaluator<'a> {
             }
             "nadd" => Ok(self.int(arg(t, 0)?)?.wrapping_add(self.int(arg(t, 1)?)?)),
             "nsub" => Ok(self.int(arg(t, 0)?)?.wrapping_sub(self.int(arg(t, 1)?)?)),
+            "lemod" => {
+                // the byte string read as a little-endian integer, modulo n
+                let b = self.eval(arg(t, 0)?)?;
+                let n = self.n(t, "n")? as u128;
+                if n == 0 {
+                    return Err(EvalError::Bad("lemod 0".into()));
+                }
+                let mut acc: u128 = 0;
+                for x in b.iter().rev() {
+                    acc = ((acc << 8) | (*x as u128)) % n;
+                }
+                Ok(acc as u64)
+            }
             _ => Err(EvalError::Bad(format!("int op {}", op))),
         }
     }
@@ -130,6 +143,27 @@ impl<'a> Evaluator<'a> {
                     return Err(EvalError::Bad(format!("slice {}..{} of {} bytes", lo, hi, b.len())));
                 }
                 b[lo..hi].to_vec()
+            }
+            "xor" => {
+                let a = self.eval(arg(t, 0)?)?;
+                let b = self.eval(arg(t, 1)?)?;
+                if a.len() != b.len() {
+                    return Err(EvalError::Bad(format!("xor of {} and {} bytes", a.len(), b.len())));
+                }
+                a.iter().zip(b.iter()).map(|(x, y)| x ^ y).collect()
+            }
+            "salsa" => {
+                let b = self.eval(arg(t, 0)?)?;
+                if b.len() != 64 {
+                    return Err(EvalError::Bad(format!("salsa20/8 of {} bytes", b.len())));
+                }
+                kestrel_crypto::verif_salsa20_8(&b)
+            }
+            "select" => {
+                let i = self.n(t, "idx")? as usize;
+                let a = t.get("a").and_then(|x| x.as_array()).ok_or_else(|| EvalError::Bad("select".into()))?;
+                let x = a.get(i).ok_or_else(|| EvalError::Bad(format!("select {} of {}", i, a.len())))?;
+                self.eval(x)?
             }
             "xorbyte" => {
                 let b = self.eval(arg(t, 0)?)?;
